@@ -7,6 +7,7 @@ package hermes
 import (
 	"encoding/json"
 	"fmt"
+	"io"
 	"os"
 	"strconv"
 )
@@ -140,3 +141,53 @@ func vNear(a, b, eps float64) bool {
 // vLemmaPoint: at every symbolic application site of the named math function
 // the engine asserts the natively evaluated value at x (with monotonicity).
 func vLemmaPoint(fn string, x float64) {}
+
+// ---- output capture (native: redirect os.Stdout to a temp file)
+
+var vCapFile *os.File
+var vCapOld *os.File
+
+func vCaptureStart() {
+	f, err := os.CreateTemp("", "verif-capture-")
+	if err != nil {
+		panic(err)
+	}
+	vCapFile = f
+	vCapOld = os.Stdout
+	os.Stdout = f
+}
+
+func vCaptureEnd() string {
+	os.Stdout = vCapOld
+	vCapFile.Seek(0, 0)
+	b, _ := io.ReadAll(vCapFile)
+	vCapFile.Close()
+	os.Remove(vCapFile.Name())
+	return string(b)
+}
+
+// vTokens splits a string into its maximal decimal digit runs (as ints) and the
+// texts around them: len(texts) == len(ints)+1.
+func vTokens(s string) (ints []int, texts []string) {
+	cur := ""
+	i := 0
+	for i < len(s) {
+		c := s[i]
+		if c < '0' || c > '9' {
+			cur += string(c)
+			i++
+			continue
+		}
+		j := i
+		for j < len(s) && s[j] >= '0' && s[j] <= '9' {
+			j++
+		}
+		v, _ := strconv.Atoi(s[i:j])
+		ints = append(ints, v)
+		texts = append(texts, cur)
+		cur = ""
+		i = j
+	}
+	texts = append(texts, cur)
+	return
+}
